@@ -117,7 +117,9 @@ async def call(api, req: Dict[str, Any]):
     if op == "createsched":
         D = list(Days)
         ds = [D[i] for i in req["days"]]
-        return await api.create_schedule(req["start"], req["stop"], set(ds) if req.get("form", "set") == "set" else ds)
+        form = req.get("form", "set")
+        days = set(ds) if form == "set" else frozenset(ds) if form == "frozenset" else tuple(ds) if form == "tuple" else ds
+        return await api.create_schedule(req["start"], req["stop"], days)
     if op == "stop":
         return await api.stop()
     if op == "setpos":
@@ -149,7 +151,8 @@ def req_tokens(req: Dict[str, Any]) -> str:
         return f"delsched {C.ut(req['id'])}"
     if op == "createsched":
         d = ",".join(map(str, req["days"])) if req["days"] else "-"
-        return f"createsched {C.ut(req['start'])} {C.ut(req['stop'])} {req.get('form', 'set')} {d}"
+        form = {"frozenset": "set", "tuple": "list"}.get(req.get("form", "set"), req.get("form", "set"))     # a frozenset is a set, a tuple a sequence
+        return f"createsched {C.ut(req['start'])} {C.ut(req['stop'])} {form} {d}"
     if op == "setpos":
         return f"setpos {req['pos']}"
     if op == "ctlbreeze":
